@@ -55,4 +55,52 @@ CLAIMED = {
                      "iterator) validated against the spec with TLC; model-guided numeric replay",
         "design_ref": "DESIGN.md section 4 (C09)",
     },
+    "C01": {
+        "text": "Serializer.tla transcribes the save dispatch (_serialize_value/_serialize_container) and "
+                "the load marker dispatch (_recursive_load/_deserialize_container) over an abstract "
+                "store (attrs / path flags / arrays / groups per group) and an abstract value grammar "
+                "(21 kinds). TLC checks RoundTrip (Load(Save(g)) = Norm(g), same class and attribute "
+                "set), FixedPoint and NeverRaises for every object graph of the bounded universe "
+                "(all leaf kinds, containers of width<=2, depth 2 over dispatch classes, nested objects) "
+                "and rejects five legacy variants (one per defect of the pinned tree). Every graph is "
+                "exported, instantiated with concrete payloads (15 NumPy dtypes incl. complex, "
+                "datetime, strings, structured, big-endian; 0-d/empty/non-contiguous arrays; 8 tensor "
+                "dtypes), saved/loaded/re-saved/re-loaded under zip and dir stores, compression "
+                "None/0..9, str/Path targets, modes w/o, and compared with the model's expected value.",
+        "note": "Trusted: TLC, the harness instantiation/comparison (harness/serial_common.py), zarr/"
+                "Blosc/torch/dill byte fidelity. Bounded graph universe; rng/loggers only as "
+                "attributes; reserved names and '/' excluded as the property states.",
+        "technique": "TLA+ transcription of the dispatch chains model-checked by TLC; every model "
+                     "state exported and replayed into the implementation (S->C)",
+        "design_ref": "DESIGN.md section 4 (C01)",
+    },
+    "C14": {
+        "text": "Same Serializer.tla model with skip sets: TLC checks SkippedAbsent, OthersUntouched, "
+                "Persisted, SaveEqLoad and LoadSkipBoth for every (graph with names reused at three "
+                "attribute-nesting levels) x (subset of a 4-name alphabet incl. an absent name) x (9 "
+                "type lists). Exported cases are replayed: save(skip=...), load plain / with the same "
+                "skip / with further names, and load-time skipping of the unskipped file, each compared "
+                "with the model's expected object; both stores.",
+        "note": "Trusted as C01. Skip types are module-level classes; skip names do not collide with "
+                "class-level attributes; nested objects reached through attributes.",
+        "technique": "TLA+ model checked by TLC; exported cases replayed into save/load with skip lists",
+        "design_ref": "DESIGN.md section 4 (C14)",
+    },
+    "C08": {
+        "category": "model_checking",
+        "text": "SaveFaults.tla models save() step-wise (exists-check, remove, mkdir/writes or "
+                "staging/zip assembly) with a Fail action between any two steps; TLC checks "
+                "NoPartialLoadable, WriteOnce and OnlyTarget over every pre-existing target kind, store, "
+                "mode, fault phase/position and two consecutive saves, and rejects the pinned-tree "
+                "variant without clean-up. Every scenario is replayed against the real save() with an "
+                "exception injected at the matching external boundary (zarr LocalStore.set, "
+                "ZipFile.write, torch.save, unserialisable attribute; thorough: every concrete call "
+                "index) and the real file system is inspected: target absent/unreadable or a complete "
+                "earlier object, write-once target byte-identical, siblings and temp dir untouched.",
+        "note": "Trusted: TLC, the injection wrappers, tree hashing. Faults are exceptions at external "
+                "boundaries (not process crashes). zip and dir stores never share a target path.",
+        "technique": "TLA+ fault model checked by TLC; fault scenarios enumerated by TLC replayed with "
+                     "fault injection into the implementation",
+        "design_ref": "DESIGN.md section 4 (C08)",
+    },
 }
